@@ -77,11 +77,16 @@ func (c *caseSpec) keyClass() string {
 	return k
 }
 
-func randOpts(rng *prng.R, chunk int) buildOpts {
+func randOpts(rng *prng.R, chunk int, thorough bool) buildOpts {
 	o := buildOpts{Chunk: chunk}
 	o.Scheme = rng.PickS("gzip", "gzip", "zstdchunked", "externaltoc")
 	if o.Scheme == "zstdchunked" {
+		// zstd level 4 (SpeedBestCompression) costs tens of seconds per build on a loaded
+		// machine (huge encoder tables per stream): thorough tier only, and rarely
 		o.Level = rng.Pick(1, 1, 2, 2, 3, 3, 3, 4)
+		if o.Level == 4 && !(thorough && rng.Chance(1, 3)) {
+			o.Level = 2
+		}
 	} else {
 		o.Level = rng.Pick(1, 6, 9, 9, -1, 0, -2)
 	}
@@ -105,7 +110,7 @@ func genCase(r *vf.Run, i int) (*caseSpec, []gen.Entry) {
 	if chunk == 0 {
 		c.GenCh = 2048
 	}
-	c.Opts = randOpts(rng, chunk)
+	c.Opts = randOpts(rng, chunk, r.Thorough())
 	switch x := rng.Intn(10); {
 	case x < 5:
 		c.Mode = "build"
@@ -129,7 +134,7 @@ func genCase(r *vf.Run, i int) (*caseSpec, []gen.Entry) {
 		c.Input = "plain"
 	}
 	if strings.HasPrefix(c.Input, "esgz-") {
-		c.PreOpts = randOpts(rng.Derive(77), chunk)
+		c.PreOpts = randOpts(rng.Derive(77), chunk, false)
 		c.PreOpts.Scheme = strings.TrimPrefix(c.Input, "esgz-")
 		if c.PreOpts.Scheme == "zstdchunked" {
 			c.PreOpts.Level = rng.Pick(1, 2, 3)
@@ -178,7 +183,7 @@ func genCase(r *vf.Run, i int) (*caseSpec, []gen.Entry) {
 }
 
 func main() {
-	vf.Main("C03", "exploration", ruleText, 12, 200, body)
+	vf.Main("C03", "exploration", ruleText, 12, 160, body)
 }
 
 func body(r *vf.Run) {
@@ -192,7 +197,7 @@ func body(r *vf.Run) {
 		childBody(r)
 		return
 	}
-	n := r.N(50, 1000)
+	n := r.N(50, 800)
 	all := make([]int, n)
 	for i := range all {
 		all[i] = i
@@ -207,7 +212,7 @@ func body(r *vf.Run) {
 			raceCases = append(raceCases, i)
 		}
 	}
-	if max := r.N(8, 80); len(raceCases) > max {
+	if max := r.N(8, 60); len(raceCases) > max {
 		raceCases = raceCases[:max]
 	}
 	runBatches(r, "race", true, raceCases)
@@ -235,7 +240,9 @@ func runBatches(r *vf.Run, stage string, race bool, cases []int) {
 		if ex.TimedOut {
 			r.Inconclusive("watchdog: child stage " + stage)
 		}
-		clean := ex.ExitCode == 0 && ex.Signal == "" && !ex.TimedOut
+		// the race runtime makes the process exit with 66 when it reported a race (halt_on_error=0):
+		// that is not a crash; the reports themselves are accounted by RunChild.
+		clean := (ex.ExitCode == 0 || (race && ex.ExitCode == 66)) && ex.Signal == "" && !ex.TimedOut
 		var next []int
 		var inflight []int
 		for _, i := range remaining {
@@ -254,10 +261,7 @@ func runBatches(r *vf.Run, stage string, race bool, cases []int) {
 			return
 		}
 		if !ex.TimedOut {
-			site := "unknown"
-			if m := frameRe.FindStringSubmatch(ex.Tail); m != nil {
-				site = m[1]
-			}
+			site := crashSite(ex)
 			var descs []string
 			for _, i := range inflight {
 				c, _ := genCase(r, i)
@@ -268,6 +272,27 @@ func runBatches(r *vf.Run, stage string, race bool, cases []int) {
 		}
 		remaining = next
 	}
+	if len(remaining) > 0 {
+		r.Inconclusive("cases not executed after repeated crashes of stage " + stage)
+	}
+}
+
+// crashSite names the innermost estargz frame of the goroutine that panicked.
+func crashSite(ex vf.ChildExit) string {
+	text := ex.Tail
+	if b, err := os.ReadFile(ex.Output); err == nil {
+		text = string(b)
+	}
+	for _, marker := range []string{"\npanic: ", "\nfatal error: "} {
+		if i := strings.Index(text, marker); i >= 0 {
+			text = text[i:]
+			break
+		}
+	}
+	if m := frameRe.FindStringSubmatch(text); m != nil {
+		return m[1]
+	}
+	return "unknown"
 }
 
 func lastLines(s string, n int) string {
@@ -348,7 +373,7 @@ func childBody(r *vf.Run) {
 				jw("END", i)
 				dmu.Lock()
 				done++
-				flush := done%25 == 0
+				flush := done%10 == 0
 				dmu.Unlock()
 				if flush {
 					r.FlushPartial()
@@ -501,7 +526,7 @@ func runCase(r *vf.Run, idx int) {
 		return
 	}
 	if err != nil {
-		hasTOCEntry := c.Inject == "toc" || c.Input == "esgz-gzip"
+		hasTOCEntry := c.Input == "esgz-gzip" || (c.Inject == "toc" && !strings.HasPrefix(c.Input, "esgz-"))
 		if c.Mode == "lossless" && hasTOCEntry && strings.Contains(err.Error(), "existing TOC JSON is not allowed") {
 			// documented refusal (AppendTarLossLess doc comment): not a blob, nothing to judge
 			r.Count("lossless_refused_existing_toc", 1)
@@ -510,7 +535,7 @@ func runCase(r *vf.Run, idx int) {
 		viol("build-error", "the builder failed on a valid input: "+err.Error())
 		return
 	}
-	if c.Mode == "lossless" && (c.Inject == "toc" || c.Input == "esgz-gzip") {
+	if c.Mode == "lossless" && (c.Input == "esgz-gzip" || (c.Inject == "toc" && !strings.HasPrefix(c.Input, "esgz-"))) {
 		r.Count("lossless_accepted_existing_toc", 1)
 	}
 
